@@ -17,10 +17,10 @@ import tgen
 PROP = "C10"
 LEVEL = "proof"
 INCLUDE = ['w4s_c10']   # wave 4 (lead, integration): generated skeletons of hosvd mode loop / tucker_als main loop: bridge theorems + replay streams
-GEN_UNITS = ["GenHosvd"]      # control-flow skeleton of hosvd's mode loop (tools/pyx2v_skel.py): Props/C10Gen.v is stated over it
+GEN_UNITS = ["GenHosvd", "GenTuckerAls"]      # control-flow skeletons (tools/pyx2v_skel.py) of hosvd's mode loop (Props/C10Gen.v is stated over it) and of the main part of tucker_als (Props/C10W5.v)
 SHARD = 6
-COQ_TARGETS = ["Props/C10.vo", "Props/C10Loop.vo", "Props/C10W3b.vo", "Props/C10W4.vo", "Props/C10Gen.vo", "Proofs/W4SHosvd.vo", "Proofs/W4SHosvdR.vo", "Model/C10Check.vo", "Model/Harness.vo"]
-THEOREM_FILES = ["Props/C10.v", "Props/C10Loop.v", "Props/C10W3b.v", "Props/C10W4.v", "Props/C10Gen.v"]
+COQ_TARGETS = ["Props/C10.vo", "Props/C10Loop.vo", "Props/C10W3b.vo", "Props/C10W4.vo", "Props/C10Gen.vo", "Props/C10W5.vo", "Proofs/W4SHosvd.vo", "Proofs/W4SHosvdR.vo", "Proofs/W4STucker.vo", "Model/C10Check.vo", "Model/Harness.vo"]
+THEOREM_FILES = ["Props/C10.v", "Props/C10Loop.v", "Props/C10W3b.v", "Props/C10W4.v", "Props/C10Gen.v", "Props/C10W5.v"]
 COQ_IMPORTS = ("From Coq Require Import List ZArith Bool QArith Qcanon.\n"
                "From PV Require Import Base.Index Np.Array Model.Sparse Model.Repr Model.Harness Model.C10Tucker Model.C10Check.\n")
 RULE = ("integer tensors <= 4x3x3 (1- to 4-way, singleton modes, low-rank + noise, full random, graded spectra with component weights "
@@ -33,16 +33,20 @@ RULE = ("integer tensors <= 4x3x3 (1- to 4-way, singleton modes, low-rank + nois
         "rank vectors within the mode sizes (all given, all automatic, mixed given/automatic), sequential True/False, all/random mode "
         "orders, the caller's ranks array observed after the call, tucker_als with list/nvecs/random init, maxiters 0..4 (0 must be rejected: finding C10-N01), stoptol {0, 1e-4, 1e-2, 0.3}: the stop rule is evaluated in Coq "
         "(transliterated loop replaying the per-iteration fits = reported fits of the runs truncated at 1..k iterations, cross-checked with the lines printed by the run itself); "
-        "wave 4 variants of sampled cases: data held C-contiguous / as a non-contiguous view / in a tensor grown by out-of-bounds assignment, second call on the same object (data array must stay untouched), dimorder=None, scalar rank, init='eigs', init = hosvd factors, verbosity=10; holders int8 and bool (finding C10-N03); "
+        "wave 4 variants of sampled cases: data held C-contiguous / as a non-contiguous view / in a tensor grown by out-of-bounds assignment, second call on the same object (data array must stay untouched), dimorder=None, scalar rank, init='eigs', init = hosvd factors, verbosity=10; wave 5: tall unfoldings (requested rank above the column count of the — sequentially shrunk — unfolding), int32 / int16 data near the top of the holder's range; holders int8 and bool (logical tensors: same answers as the float64 holder of the same 0/1 values; repaired finding C10-N03, /repo 08011d5); "
         "non-trivial = more than one cell per two modes and a truncation is possible; distinct = distinct (op,args)")
 CORRESPONDENCE_ONLY = ["eigen-decomposition (LAPACK eigh / ARPACK eigsh): certificate-checked oracle (W orthogonal, G W = W diag(mu) on the Gram matrix of the "
-                       "tensor hosvd looks at) — exactly the hypotheses run_ok / emode_ok of C10_gen_hosvd_error_bound / C10_concrete_hosvd_eigen_bound; the Ky-Fan "
-                       "optimality of the leading eigenvectors enters C10_hooi_monotone as the stated eigen-oracle contract",
+                       "tensor hosvd looks at) — exactly the hypotheses run_ok / emode_ok of C10_gen_hosvd_error_bound / C10_concrete_hosvd_eigen_bound and nvecs_eigen of "
+                       "C10_gen_tals_eigen; the Ky-Fan optimality of the leading eigenvectors is PROVED since wave 5 (C10_kyfan_energy); it is still the stated "
+                       "eigen-oracle contract (hooi_steps) of the older abstract-space theorems C10_hooi_monotone / C10_hooi_fit_monotone",
                        "the numeric kernels of the GENERATED hosvd loop (Gen/GenHosvd.v: k_unfold, k_gram, k_eigh, k_argsort_desc, k_take, k_select_cols, k_shrink) "
                        "are opaque: their contracts (run_ok, shrink_reads_k) are hypotheses of Props/C10Gen.v; hosvd's argument validation, normxsqr / eigsumthresh "
                        "and the final core extraction lie outside the generated region (hand transliteration hosvd_run, tied by observations)",
-                       "the tucker_als loop model (Model/C10Loop.v tals_run: nvecs, project, core, norms as oracles) and its tie to pyttb (observed ranks, iters, "
-                       "per-iteration fit trace replayed through the loop model, printed lines; not translator-generated)",
+                       "the numeric kernels of the GENERATED tucker_als main part (Gen/GenTuckerAls.v: k_ttm_excl, k_nvecs, k_ttm_core, k_resid, k_fit, k_absdiff, "
+                       "k_ttensor) are opaque: their contracts (excl_spec, core_spec, resid_spec, fit_spec, ttensor_spec; per-run nvecs contract sweeps_ok with "
+                       "step_ortho / step_opt or the eigen contract nvecs_eigen) are hypotheses of Props/C10W5.v; tucker_als' argument validation, the starting "
+                       "guess (random / nvecs / list) and normX = input_tensor.norm() lie outside the generated region (tied by observations: ranks, iters, "
+                       "per-iteration fit trace replayed through the loop model, printed lines)",
                        "printed relative error of hosvd (default verbosity) against the exact recomputation"]
 ASSUMPTIONS = ["floats are converted to rationals after rounding to the 2^-40 grid (abs. error <= 5e-13, inside the 1e-9 tolerance)",
                "theorems are over exact real arithmetic (stdlib Reals axioms); IEEE rounding is not modelled",
@@ -52,7 +56,10 @@ ASSUMPTIONS = ["floats are converted to rationals after rounding to the 2^-40 gr
                "identity, lambda_j = ||Q_j y||^2); for concrete tensors this form is derived (Props/C10W4.v) from the matrix form W^T W = W W^T = I, "
                "G W = W diag(mu), which stays a hypothesis; on the samples the LAPACK output is certificate-checked in Qc in exactly that form",
                "Props/C10Gen.v: the kernels of the generated loop are arbitrary functions; `k_shrink Y factor_matrices k` is assumed to read only "
-               "factor_matrices[k] (the skeleton translator abstracts the index expression into the kernel)"]
+               "factor_matrices[k] (the skeleton translator abstracts the index expression into the kernel)",
+               "Props/C10W5.v: `k_ttm_excl X U n true` is assumed to be X x_m U_m^T over the modes m <> n in ascending order (tensor.ttm with exclude_dims; "
+               "the mode products commute, C10_ttm_comm_dense), normX = sqrt(||X||^2) is a hypothesis (tucker_als computes it before the generated region), "
+               "the data is non-zero in the monotonicity clause"]
 EXPLANATION = ("C10_rank_choice / C10_given_ranks / C10_ncols: theorems about the transliterated rank rule and slice of the repaired hosvd; "
                "C10_spectral_step: discarded eigenvalues = discarded projector energy; C10_hosvd_error_bound: rank rule per mode ==> relative "
                "error <= tol for both strategies and every mode order; C10_hooi_monotone / C10_hooi_fit_monotone: ||core|| and the fit never "
@@ -64,6 +71,11 @@ EXPLANATION = ("C10_rank_choice / C10_given_ranks / C10_ncols: theorems about th
                "matrix eigen-equation G W = W diag(mu) (C10_concrete_spectral_step, C10_rayleigh, C10_energies_eigen, C10_recon_is_projection, C10_concrete_hosvd_eigen_bound; "
                "sequential case on the shrunk tensors: C10_gram_isometry .. C10_concrete_hosvd_seq_bound); Props/C10Gen.v: the translator-GENERATED hosvd loop = the hand loop "
                "model, its bookkeeping, and the error bound for what the generated loop returns (C10_gen_loop_is_hand_loop, C10_gen_hosvd_bookkeeping, C10_gen_hosvd_error_bound); "
+               "Props/C10W5.v (wave 5): the Tucker-ALS clauses over the translator-GENERATED main part of tucker_als (Gen/GenTuckerAls.v) with real tensors: the function returns for every "
+               "valid request with maxiters > 0 and hands back the caller's Uinit (C10_gen_tals_total), returns orthonormal factors of the requested ranks with core = X x_n U_n^T over all modes "
+               "and reports normresidual / fit equal to the recomputed ||X - T|| and 1 - ||X - T||/||X|| (C10_gen_tals_result), the fits of its iterations never decrease "
+               "(C10_gen_tals_monotone); KY-FAN maximality of the leading eigenvectors proved (C10_kyfan_weights, C10_energy_gram, C10_kyfan_energy), so that all clauses hold under the "
+               "eigen-solver contract of the nvecs calls alone (C10_nvecs_eigen_step_both, C10_gen_tals_eigen); "
                "C10_wrapped_normsq_le / C10_smaller_budget_safe (a squared norm formed in a wrapping integer type — the repaired finding C10-N02 — could not break the error bound); the correspondence recomputes every claimed "
                "relation exactly in Qc on pyttb's returned factors and core.")
 
@@ -233,6 +245,11 @@ def _narrow_data_for(rng, n, dt):
         if not any(v):
             v[0] = -100
         return v
+    if dt in ("int32", "int16") and rng.random() < 0.5:
+        # wave 5: counts / samples near the top of the holder's range (int32 ~1e5: one square exceeds 2^31; int16 up to +-32000): the values
+        # fit, but any sum of squares / Gram entry formed in the holder's dtype wraps (class of seeded C10-J: norm by vdot in the stored dtype)
+        lo, hi = (30000, 100000) if dt == "int32" else (9000, 32000)
+        return [rng.choice([-1, 1]) * rng.randint(lo, hi) for _ in range(n)]
     if dt == "bool":
         v = [rng.randint(0, 1) for _ in range(n)]
         if not any(v):
@@ -307,6 +324,23 @@ def gen_cases(rng, tier):
                 a2["ranks"] = list(shp)           # full ranks
                 a2["data"] = _tensor(rng, shp)
                 cases.append(Case("hosvd_ranks", a2, nt))
+            # wave 5: TALL unfoldings — a requested rank within the mode size but above the number of COLUMNS of the unfolding hosvd looks at
+            # (product of the other, sequentially already shrunk, mode sizes): the Gram matrix is rank-deficient, the request must still be
+            # honoured exactly (class of seeded C10-I: economy SVD returns min(I_k, P) columns).  Sequential: ranks 1 for all modes but the
+            # last of dimorder, which asks for >= 2 columns of an I_k x 1 unfolding; non-sequential: any mode with I_k > prod(other sizes)
+            order = list(rng.choice(perms))
+            if shp[order[-1]] >= 2:
+                tr = [1] * d
+                tr[order[-1]] = rng.randint(2, shp[order[-1]])
+                cases.append(Case("hosvd_ranks", {"shape": list(shp), "data": _tensor(rng, shp), "ranks": tr, "sequential": True,
+                                                  "dimorder": order, "tall": True}, nt))
+            tallm = [k for k in range(d) if shp[k] > math.prod(shp) // shp[k]]
+            if tallm:
+                k = rng.choice(tallm)
+                tr = [rng.randint(1, x) for x in shp]
+                tr[k] = rng.randint(math.prod(shp) // shp[k] + 1, shp[k])
+                cases.append(Case("hosvd_ranks", {"shape": list(shp), "data": _tensor(rng, shp), "ranks": tr, "sequential": False,
+                                                  "dimorder": list(rng.choice(perms)), "tall": True}, nt))
             # tucker_als
             if d >= 2:
                 data = _tensor(rng, shp)
@@ -347,10 +381,24 @@ def gen_cases(rng, tier):
                 cases.append(Case("hosvd_print", dict(ha), nt))
     # regression inputs of the repaired finding C10-N02 (/repo 2956bb2): every square is 0 mod 256 in uint8 / the sum of squares is
     # negative in int16; same answer as the float64 holder demanded (ranks by the rule, printed error, no warning, no crash)
-    for shp2, dat2, dt2 in (((2, 3), [16, 16, 16, 16, 16, 32], "uint8"), ((2, 2), [200, 200, 200, 13], "int16")):
+    # ... and of the repaired finding C10-N03 (/repo 08011d5): the logical tensor [[1,0,1],[1,1,0]] (hosvd and tucker_als(init='nvecs'))
+    for shp2, dat2, dt2 in (((2, 3), [16, 16, 16, 16, 16, 32], "uint8"), ((2, 2), [200, 200, 200, 13], "int16"),
+                            ((2, 3), [1, 1, 0, 1, 1, 0], "bool")):
         for op2 in ("hosvd_print", "hosvd_auto"):
             cases.append(Case(op2, {"shape": list(shp2), "data": dat2, "tol": [1, 2], "sequential": True, "dimorder": [0, 1],
                                     "dtype": dt2}, True))
+    cases.append(Case("tucker_als", {"shape": [2, 3], "data": [1, 1, 0, 1, 1, 0], "ranks": [1, 2], "maxiters": 2, "dimorder": [0, 1],
+                                     "init": "nvecs", "stoptol": 0.0, "dtype": "bool"}, True))
+    # fixed narrow holders near the top of their range (wave 5): tucker_als reports the fit of the float64 holder of the same values
+    for dt2, v2 in (("int32", [91234, -30511, 77002, 45999, -99871, 30007, 61234, -88123, 52001, 39999, -70707, 98765]),
+                    ("int16", [31234, -9511, 17002, 25999, -29871, 30007, 11234, -18123, 22001, 9999, -30707, 28765])):
+        cases.append(Case("tucker_als", {"shape": [3, 2, 2], "data": v2, "ranks": [2, 1, 2], "maxiters": 2, "dimorder": [2, 0, 1],
+                                         "init": "nvecs", "stoptol": 0.0, "dtype": dt2}, True))
+    # fixed tall-unfolding requests (wave 5): sequential ranks (1,1,2) on 4x3x3 (mode 2 is unfolded as 3 x 1 after two shrinks), non-sequential
+    # (5,2,2) on 6x2x2 (6 x 4 unfolding), 1-way (the unfolding is a column)
+    for shp2, rk2, sq2 in (((4, 3, 3), [1, 1, 2], True), ((6, 2, 2), [5, 2, 2], False), ((3,), [2], True), ((3,), [3], False)):
+        cases.append(Case("hosvd_ranks", {"shape": list(shp2), "data": _tensor(rng, shp2), "ranks": rk2, "sequential": sq2,
+                                          "dimorder": list(range(len(shp2))), "tall": True}, True))
     # graded spectra with tight tolerances (unscaled; the scaled copies follow)
     for shp in shapes:
         d = len(shp)
@@ -558,11 +606,7 @@ def run_impl(c):
 
 
 # ---------------------------------------------------------------- known findings
-TRIGGERS = {"tals_maxiters_zero": lambda c: c.op == "tucker_als" and c.args.get("maxiters") == 0,
-            # C10-N03: a logical (bool) dense tensor has no matricisation — exactly: the data holder has dtype bool AND the request
-            # matricises the DATA itself: every hosvd call, tucker_als only when it computes its starting guess with tensor.nvecs
-            "hosvd_bool_holder": lambda c: c.args.get("dtype") == "bool" and (c.op.startswith("hosvd") or
-                                           (c.op == "tucker_als" and c.args.get("init") in ("nvecs", "eigs") and c.args.get("maxiters", 1) > 0))}
+TRIGGERS = {"tals_maxiters_zero": lambda c: c.op == "tucker_als" and c.args.get("maxiters") == 0}
 
 
 def _wit_n01():
@@ -579,18 +623,7 @@ def _wit_n01():
     return "tucker_als(X, [1,2,2], maxiters=0) returned a result without running a sweep"
 
 
-def _wit_n03():
-    import numpy as np
-    import pyttb as ttb
-    X = ttb.tensor(np.array([[1, 0, 1], [1, 1, 0]], dtype=bool))
-    try:
-        T = ttb.hosvd(X, 0.5, verbosity=0)
-    except Exception as ex:
-        return f"hosvd(bool [[1,0,1],[1,1,0]], tol=0.5) raised {type(ex).__name__}: {ex}"
-    return None if T.core.shape == (2, 2) else f"hosvd(bool [[1,0,1],[1,1,0]], tol=0.5) keeps core {T.core.shape}, the float64 holder (2, 2)"
-
-
-WITNESSES = {"C10-N01": _wit_n01, "C10-N03": _wit_n03}
+WITNESSES = {"C10-N01": _wit_n01}
 
 
 # ---------------------------------------------------------------- Coq side
